@@ -23,12 +23,18 @@ CHECKS = {
  "C10": dict(engine=E1, category="model_checking", technique=T_E1, ref="DESIGN.md 3, 5/C10",
   text="fork.Fold for par 1..3, every input sequence of length <=3 (4) over a 3-letter alphabet incl. empty and shorter than par, monoids sum (injective weights: the sum is the bag of elements), product, max, min, and, or, input capacity {0,len}; every interleaving = every distribution of elements over workers and arrival order at the collector: exactly one value equal to the sequential left fold, then closed, nothing left running.",
   note=NOTE_E1 + "Same symmetry assumption as C09."),
+ "C11": dict(engine=E1, category="model_checking", technique=T_E1, ref="DESIGN.md 3, 5/C11",
+  text="Emit (cap 0..2, frequency 1 and 3 ticks, Pure / Try with all 15 failing subsets of indices 0..3 / Lift) and Unfold (cap 0..2, three step functions) against every consumer gap script over {0,f,2f} up to 3 (4) receives, and against a canceller firing at every clock grid point, on rt's virtual clock with every same-instant interleaving explored: exact successive sequence, function called once per tick (call i not before tick i+1, consecutive calls >= f apart), no value before its tick, a keep-up consumer receives index i exactly at tick i+1, after cancel both channels close and the generator exits.",
+  note=NOTE_E1 + "Time is rt's virtual clock (advances only when no thread can run - the testing/synctest rule); real-time jitter is not modelled."),
  "C12": dict(engine=E1, category="model_checking", technique=T_E1, ref="DESIGN.md 3, 5/C12",
   text="Join over every combination of 0..3 inputs with 0..2 distinct elements each, capacities 0..1, one producer per input, canceller absent or free, every interleaving: received sequence is an interleaving of the inputs (per-input order, no loss, duplicate or invention), the output closes exactly when all producers have closed (the consumer reads a shared counter at the moment it observes the close), closes with zero inputs, no goroutine left.",
   note=NOTE_E1 + "Quick tier: <=4 elements on <=2 inputs, <=3 on 3 inputs; thorough: all combinations up to 2+2+2 (preemption bound 4 at 6 elements)."),
  "C08": dict(engine=E1, category="model_checking", technique=T_E1, ref="DESIGN.md 3, 5/C08",
   text="Every interleaving (unbounded, state-cached) of the translated pipe.New pump with 1-2 senders, a receiver and a free canceller, for capacities 0..2 (3), 0..3 (4) sends, sender close, receiver drain/stop/absent and both sync.Pool recycling policies, is checked for FIFO, exactly-once, delivery of every completed send after cancel, clean end of stream on sender close, sender never waiting for the receiver, and no library panic.",
   note=NOTE_E1 + "Bounds: capacities and send counts as stated; values are distinct ints."),
+ "C13": dict(engine=E1, category="model_checking", technique=T_E1, ref="DESIGN.md 3, 5/C13",
+  text="Throttling for ops 1..3, interval 4 ticks, input capacity 0..2, k=2*ops+c+3 elements, producer gaps {0,I/2,I,3I}, consumer schedules (constant paces; take j then idle G in {I/2,I,I+1,2I,10I} then burst, for every j; two idle periods in thorough), cancel at grid points, on the virtual clock with every same-instant interleaving: exact order, closure, every window of length interval holds at most 2*ops+1+c deliveries before cancel (the maximum observed per (ops,c) is reported and reaches the bound exactly), saturated latency of element i within [floor(i/ops)*I, +I].",
+  note=NOTE_E1 + "Virtual clock as in C11; the latency upper bound is a statement about the ideal clock. Deliveries at the very instant of the cancel are not counted (they may follow it)."),
 }
 
 PENDING = "check not built yet in this session (planned: DESIGN.md section 5)"
